@@ -84,6 +84,18 @@ def _impl(tier, seed, search):
         L.close('Ad(T1 T2)=Ad(T1)Ad(T2)', b.adjoint(T1 @ T2), A1 @ A2, T9, tsc * max(1.0, geom.tmag(T1)), dict(T1=T1, T2=T2))
         L.close('Ad(T^-1)=Ad(T)^-1', b.adjoint(b.trinv(T1)) @ A1, np.eye(6), T9, max(1.0, geom.tmag(T1)) ** 2, dict(T=T1))
         L.close('Ad(T)S=vee(T[S]T^-1)', A1 @ S, b.vexa(T1 @ b.skewa(S) @ b.trinv(T1)), T9, max(1.0, geom.tmag(T1)) ** 2 * float(np.max(np.abs(S))), dict(T=T1, S=S))
+        # … for twists of every size (a 3000 rpm spindle has |w| = 314): vee is linear, defined on every computed algebra element
+        Sl = S * 10.0 ** g.uniform(0.5, 3.0)
+        ok, r = L.noraise('Ad(T)S=vee(T[S]T^-1):large', lambda: b.vexa(T1 @ b.skewa(Sl) @ b.trinv(T1)), dict(T=T1, S=Sl), 'vee of the conjugated algebra element T [S] T^-1 for a large twist', sig='vee(T[S]T^-1):raises')
+        if ok: L.close('Ad(T)S=vee(T[S]T^-1):large', A1 @ Sl, r, T9, max(1.0, geom.tmag(T1)) ** 2 * float(np.max(np.abs(Sl))), dict(T=T1, S=Sl), sig='Ad(T)S=vee(T[S]T^-1)')
+        # … and on the twist class: the product of two twists is the composition of the motions, so Ad(S1*S2) = Ad(S1) Ad(S2) — prismatic, revolute and general operands
+        if i % 3 == 0:
+            gen_ = np.r_[g.normal(size=3), inputs.unit_axis(g) * float(g.uniform(0.2, 1.2))]; pri_ = np.r_[g.normal(size=3), 0, 0, 0]; gen2_ = np.r_[g.normal(size=3), inputs.unit_axis(g) * float(g.uniform(0.2, 1.2))]
+            for nm_, (sa_, sb_) in (('prismatic*general', (pri_, gen_)), ('general*prismatic', (gen_, pri_)), ('general*general', (gen_, gen2_)), ('prismatic*prismatic', (pri_, np.r_[gen_[:3], 0, 0, 0]))):
+                ok, r = L.noraise(f'Twist3*Twist3({nm_})', lambda: ((Twist3(sa_) * Twist3(sb_)).Ad(), Twist3(sa_).Ad() @ Twist3(sb_).Ad(), (Twist3(sa_) * Twist3(sb_)).SE3().A, b.trexp(sa_) @ b.trexp(sb_)), dict(S1=sa_, S2=sb_), 'Twist3 * Twist3')
+                if ok:
+                    L.close(f'Ad(S1*S2)=Ad(S1)Ad(S2) [{nm_}]', r[0], r[1], 1e-7, max(1.0, float(np.max(np.abs(r[1])))), dict(S1=sa_, S2=sb_), what=f'Ad of the product of two twists ({nm_}) is not the product of their adjoints', sig='Ad(S1*S2)')
+                    L.close(f'exp(S1*S2)=exp(S1)exp(S2) [{nm_}]', r[2], r[3], 1e-7, max(1.0, geom.tmag(r[3])), dict(S1=sa_, S2=sb_), sig='Ad(S1*S2)')
         ok, r = L.noraise('SE3.Ad', lambda: SE3(T1, check=False).Ad(), dict(T=T1), 'SE3.Ad()')
         if ok: L.close('SE3.Ad', r, A1, 1e-12, max(1.0, geom.tmag(T1)), dict(T=T1))
         ok, r = L.noraise('adjoint(3x3)', lambda: b.adjoint(T1[:3, :3]), dict(R=T1[:3, :3]), 'base.adjoint on an SO(3) matrix', sig='adjoint(3x3):raises')
@@ -130,6 +142,14 @@ def _impl(tier, seed, search):
         lg = b.tr2delta(T1, Td)
         L.close('tr2delta~log (first order)', lg, d, 1.0, 10 * float(np.linalg.norm(d)) ** 2 + 1e-9 * max(1.0, geom.tmag(T1)) * 1e-7 + 1e-15 * max(1.0, geom.tmag(T1)), dict(T=T1, d=d),
                 what='tr2delta does not match the logarithm to first order')
+        # … against the library's own logarithm (base function and class), rotational and translational parts alike, down to |d| = 1e-9
+        Tdd = b.trexp(d); Tdt = b.transl(*(g.normal(size=3) * 10.0 ** g.uniform(-8, 0))) @ b.trexp(np.r_[0, 0, 0, d[3:]])
+        for nm_, Tx_ in (('exp(d)', Tdd), ('transl*rot(d)', Tdt)):
+            ok, r = L.noraise(f'trlog({nm_})', lambda: (b.trlog(Tx_, twist=True), b.tr2delta(Tx_), SE3(Tx_, check=False).log(twist=True), b.vexa(b.trlog(Tx_))), dict(d=d, T=Tx_), 'trlog / tr2delta of a differential motion')
+            if ok:
+                tol_ = 10 * (float(np.linalg.norm(r[1])) + float(np.linalg.norm(d))) ** 2 + 1e-15
+                for k_, nn_ in ((0, 'trlog'), (2, 'SE3.log'), (3, 'vee(trlog)')):
+                    L.close(f'tr2delta~{nn_} (first order) [{nm_}]', r[1], r[k_], 1.0, tol_, dict(T=Tx_, d=d), what=f'tr2delta and {nn_} of a differential motion differ at first order', sig='tr2delta~trlog')
         ok, r = L.noraise('SE3.delta', lambda: SE3(T1, check=False).delta(SE3(Td, check=False)), dict(T=T1, d=d), 'SE3.delta')
         if ok: L.close('SE3.delta', r, lg, 1e-12, max(1e-300, float(np.max(np.abs(lg)))), dict(T=T1, d=d))
         ok, r = L.noraise('SE3.Delta', lambda: SE3.Delta(d).A, dict(d=d), 'SE3.Delta(d)', sig='SE3.Delta:raises')
